@@ -99,6 +99,29 @@ static void pc_add(int kind) { __CPROVER_assert(g_pc_n < 4, "at most four pieces
 static void pc_lit(char const *p, size_t n) { __CPROVER_assert(__CPROVER_r_ok(p, n), "buffer(literal,n): n bytes of the literal are readable"); g_lit_p = p; g_lit_n = n; pc_add(PC_lit); }
 /* chunked_header_ = hex(n) + CRLF via std::ostringstream << std::hex (library formatting assumed: lower-case hexadecimal, no prefix) */
 static void hdr_set_hex_crlf(struct http_out *self, size_t n) { self->hdr_hex_of = n; self->hdr_set = 1; }
+/* ---- HTTP format_output: mode selection and the lines it appends to the header block (recorder keyed on the literal's text) */
+#define CPPCMS_PACKAGE_VERSION "x"
+enum { PC_chunked = 7 };
+struct http_fmt { bool headers_done_, chunked_te_, client_accepts_keep_alive_, error_state_, is_http_11_, keep_alive_, rh_empty; long long output_content_length_, output_written_; };
+int g_h_server, g_h_cl, g_h_ka, g_h_close, g_h_te, g_h_end, g_h_num, g_h_other, g_h_seq_end; unsigned long long g_fmt_num; extern bool g_after_num;
+static void rh_lit(char const *p)
+{
+  __CPROVER_assert(g_h_end == 0, "nothing is appended after the empty line that ends the header block");
+  if(p[0] == 'S' && p[1] == 'e') g_h_server++;
+  else if(p[0] == 'C' && p[1] == 'o' && p[2] == 'n' && p[3] == 't') g_h_cl++;                    /* "Content-Length: " */
+  else if(p[0] == 'C' && p[1] == 'o' && p[2] == 'n' && p[3] == 'n' && p[12] == 'k') g_h_ka++;      /* "Connection: keep-alive\r\n" */
+  else if(p[0] == 'C' && p[1] == 'o' && p[2] == 'n' && p[3] == 'n' && p[12] == 'c') g_h_close++;   /* "Connection: close\r\n" */
+  else if(p[0] == 'T' && p[1] == 'r') g_h_te++;                                                   /* "Transfer-Encoding: chunked\r\n" */
+  else if(p[0] == '\r' && p[1] == '\n' && p[2] == 0) { if(g_after_num) { /* the CRLF that ends the Content-Length line */ } else g_h_end++; }
+  else g_h_other++;
+  g_after_num = 0;
+}
+/* the CRLF after the Content-Length number is the same literal as the end-of-headers line: told apart by position (right after the number) */
+bool g_after_num;
+static void rh_buf(char const *buf) { g_h_num++; g_after_num = 1; }
+static void format_number_rec(size_t v, char *buf, size_t n) { g_fmt_num = v; }
+/* set_response_headers(dummy): no Content-Length header -> length unknown, nothing written yet; keep-alive wish from the request */
+static void set_response_headers_dummy(struct http_fmt *self) { self->output_content_length_ = -1; self->output_written_ = 0; int k; self->client_accepts_keep_alive_ = k != 0; self->rh_empty = 0; }
 /* ---- concrete chunk lists (const_buffer::get()): entries + ghost prefix-sum table; buffer_impl::add never stores an empty chunk */
 struct entry { char const *ptr; size_t size; };
 struct chunks { struct entry *e; size_t n; size_t *pre; };
@@ -308,6 +331,37 @@ __CPROVER_assigns(self->headers_written_, g_pc_n, __CPROVER_object_whole(g_pc_ki
 /* the header block goes out exactly once, in front of the first output; the body bytes pass unchanged */
 __CPROVER_ensures(self->headers_written_ && (__CPROVER_old(self->headers_written_) ? (g_pc_n == 1 && g_pc_kind[0] == PC_in) : (g_pc_n == 2 && g_pc_kind[0] == PC_hdr && g_pc_kind[1] == PC_in)))
 '''),
+    dict(cname='http_format_output', file=H, locate=lit('virtual booster::aio::const_buffer format_output(booster::aio::const_buffer const &in,bool completed,booster::system::error_code &e)'),
+         sig='void http_format_output(struct http_fmt *self, size_t in_n, bool completed, int *e)', refs=['e'],
+         members=['headers_done_', 'chunked_te_', 'client_accepts_keep_alive_', 'error_state_', 'is_http_11_', 'keep_alive_', 'output_content_length_', 'output_written_'],
+         rewrites=[(r'return make_chunked_wrapper\(in,completed\);', '{ pc_add(PC_chunked); return; }', 1), (r'packet\+= make_chunked_wrapper\(in,completed\);', 'pc_add(PC_chunked);', 1),
+                   (r'return in;', '{ pc_add(PC_in); return; }', 1), (r'packet\+=in;', 'pc_add(PC_in);', 1), (r'return packet;', 'return;', 1),
+                   (r'booster::aio::const_buffer packet = booster::aio::buffer\(response_headers_\);', 'pc_add(PC_hdr);', 1),
+                   (r'in\.bytes_count\(\)', 'in_n', 4), (r'e = booster::system::error_code\(errc::protocol_violation,cppcms_category\);', 'e = 2;', 2),
+                   (r'response_headers_\.empty\(\)', 'self->rh_empty', 1), (r'cppcms::impl::response_headers dummy;\s*set_response_headers\(dummy\);', 'set_response_headers_dummy(self);', 1),
+                   (r'char buf\[std::numeric_limits<size_t>::digits10 \+ \w+\];', 'char buf[24];', 1), (r'format_number\(', 'format_number_rec(', 1),
+                   (r'response_headers_ \+= buf;', 'rh_buf(buf);', 1), (r'response_headers_ \+=\s*("[^;]*);', r'rh_lit(\1);', 6)],
+         contract=r'''
+__CPROVER_requires(__CPROVER_rw_ok(self, sizeof(*self)) && __CPROVER_rw_ok(e, sizeof(*e)) && *e == 0 && in_n <= BUF_CAP && g_pc_n == 0 && self->output_content_length_ >= -1 && self->output_content_length_ <= (1ll << 40) &&
+                   self->output_written_ >= 0 && self->output_written_ <= (1ll << 40) &&
+                   g_h_server == 0 && g_h_cl == 0 && g_h_ka == 0 && g_h_close == 0 && g_h_te == 0 && g_h_end == 0 && g_h_num == 0 && g_h_other == 0)
+__CPROVER_assigns(*self, *e, g_pc_n, __CPROVER_object_whole(g_pc_kind), g_h_server, g_h_cl, g_h_ka, g_h_close, g_h_te, g_h_end, g_h_num, g_h_other, g_fmt_num, g_after_num)
+/* after the first output the header block is never touched again: the body goes out as a chunk or verbatim */
+__CPROVER_ensures(self->headers_done_)
+__CPROVER_ensures(__CPROVER_old(self->headers_done_) ==> (g_pc_n == 1 && g_pc_kind[0] == (self->chunked_te_ ? PC_chunked : PC_in) && self->chunked_te_ == __CPROVER_old(self->chunked_te_) &&
+                  g_h_server + g_h_cl + g_h_ka + g_h_close + g_h_te + g_h_end + g_h_num + g_h_other == 0))
+/* first output: exactly one header block in front; it gets one Server line, exactly one Connection line, and ends with one empty line */
+__CPROVER_ensures(!__CPROVER_old(self->headers_done_) ==> (g_pc_n == 2 && g_pc_kind[0] == PC_hdr && g_pc_kind[1] == (self->chunked_te_ ? PC_chunked : PC_in) &&
+                  g_h_server == 1 && g_h_ka + g_h_close == 1 && g_h_end == 1 && g_h_ka == (self->keep_alive_ ? 1 : 0) && g_h_te == (self->chunked_te_ ? 1 : 0) && g_h_cl == g_h_num && g_h_cl <= 1 && g_h_other == 0))
+/* framing: Content-Length is added exactly when the length was unknown and the whole body is in this first output, and it is the size of that body;
+   chunked coding only for HTTP/1.1 keep-alive with unknown length; a connection that stays open always has a delimited body */
+__CPROVER_ensures(!__CPROVER_old(self->headers_done_) ==> ((g_h_cl == 1) ==> (completed && g_fmt_num == in_n && self->output_content_length_ == (long long)in_n)))
+__CPROVER_ensures(!__CPROVER_old(self->headers_done_) ==> (self->chunked_te_ ==> (self->keep_alive_ && self->output_content_length_ == -1 && self->is_http_11_)))
+__CPROVER_ensures(!__CPROVER_old(self->headers_done_) ==> (self->keep_alive_ ==> (self->chunked_te_ || self->output_content_length_ != -1)))
+/* without chunking the bytes are counted and writing past the announced Content-Length is a protocol violation */
+__CPROVER_ensures((!self->chunked_te_ && *e == 0) ==> (self->output_content_length_ == -1 || self->output_written_ <= self->output_content_length_))
+__CPROVER_ensures(!self->chunked_te_ ==> (*e != 0) == (self->output_content_length_ != -1 && self->output_written_ > self->output_content_length_))
+'''),
 ]
 
 CH_SETUP = r'''
@@ -351,6 +405,10 @@ jobs = [
     VERIF_REACH;'''),
     dict(name='http_make_chunked_wrapper', props=P, enforce='http_make_chunked_wrapper', harness='struct http_out o; size_t n; int ci; g_pc_n = 0; http_make_chunked_wrapper(&o, n, ci != 0); VERIF_REACH;'),
     dict(name='scgi_format_output', props=P, replay='c03:stream', replay_link=['-fno-access-control', '-L{BUILD}', '-lcppcms', '-L{BUILD}/booster', '-lbooster', '-lpthread'], replay_exhaustive='60 write patterns (sizes 0, 1..10, 65535, 65536..8, up to 200000, 131070..3; 1..8 writes) x {scgi, fastcgi} through nonblocking_write into a socketpair with a 4 KiB send buffer drained in random amounts; received stream decoded and compared', enforce='scgi_format_output', harness='struct http_out o; int hw; o.headers_written_ = hw != 0; g_pc_n = 0; scgi_format_output(&o); VERIF_REACH;'),
+    dict(name='http_format_output', props=P, enforce='http_format_output', harness=r'''
+    struct http_fmt o; int b1, b2, b3, b4, b5, b6, b7, ci; o.headers_done_ = b1 != 0; o.chunked_te_ = b2 != 0; o.client_accepts_keep_alive_ = b3 != 0; o.error_state_ = b4 != 0; o.is_http_11_ = b5 != 0; o.keep_alive_ = b6 != 0; o.rh_empty = b7 != 0;
+    size_t n; int e = 0; g_pc_n = 0; g_h_server = 0; g_h_cl = 0; g_h_ka = 0; g_h_close = 0; g_h_te = 0; g_h_end = 0; g_h_num = 0; g_h_other = 0; g_after_num = 0;
+    http_format_output(&o, n, ci != 0, &e); VERIF_REACH;'''),
 ]
 
 UNIT = dict(
